@@ -34,6 +34,44 @@ def hx(b):
     return b.hex() if b else "-"
 
 
+def _solver(width, table):
+    """The CRC is affine over GF(2) and a bijection of its last width/8 message bytes: for any prefix and any
+    target value there is exactly one suffix of that length giving the target. Returns suffix(prefix, target)."""
+    nb = width // 8
+    zero = bytes(nb)
+    base = ref(width, table, zero)
+    cols = []                       # image of suffix bit i (independent of the prefix)
+    for i in range(width):
+        cols.append(ref(width, table, (1 << i).to_bytes(nb, "big")) ^ base)
+    # Gaussian elimination: rows[pivot bit] = (vector, combination of suffix bits)
+    rows = {}
+    for i, v in enumerate(cols):
+        comb = 1 << i
+        while v:
+            h = v.bit_length() - 1
+            if h in rows:
+                v ^= rows[h][0]
+                comb ^= rows[h][1]
+            else:
+                rows[h] = (v, comb)
+                break
+
+    def suffix(prefix, target):
+        v = target ^ ref(width, table, prefix + zero)
+        comb = 0
+        while v:
+            h = v.bit_length() - 1
+            v ^= rows[h][0]
+            comb ^= rows[h][1]
+        return comb.to_bytes(nb, "big")
+    return suffix
+
+SUFFIX16 = _solver(16, T16)
+SUFFIX64 = _solver(64, T64)
+EDGE32 = [0, 1, 2, 0x3ff, 0x400, 0x7fffffff, 0x80000000, 0x80000001, 0xfffffbff, 0xfffffc00, 0xfffffffe, 0xffffffff]
+EDGE16 = [0, 1, 0xff, 0x100, 0x7fff, 0x8000, 0xfffe, 0xffff]
+
+
 class CHECK(core.Check):
     PROPERTY = "C41"
     LEAN_MODULES = ["IofloModel.Props.C41"]
@@ -41,7 +79,10 @@ class CHECK(core.Check):
     N_QUICK = 400
     N_THOROUGH = 20000
     RULE = ("byte strings: all of length <= 1 (quick) / <= 2 (thorough) exhaustively, then random lengths "
-            "0..1024 with random / all-equal / single-bit contents; non-trivial = non-empty string; distinct by content")
+            "0..1024 with random / all-equal / single-bit contents; plus messages constructed (by inverting the reference "
+            "CRC on the last 8 resp. 2 bytes) so that the checksum's halves take boundary values 0, 1, 2^31, 2^32-1 and "
+            "values within 2^10 of the ends, and constant messages of every length up to 32/128; "
+            "non-trivial = non-empty string; distinct by content")
     TRUSTED = ["correspondence: checking.crc16/crc64 run in-process on the same byte strings as the Lean model "
                "(driver engine 'crc'); struct.pack('!H') of CPython",
                "reference parameters (poly, init, xorout, no reflection) as stated in the property"]
@@ -61,7 +102,24 @@ class CHECK(core.Check):
             for t in itertools.product(range(256), repeat=n):
                 yield {"data": hx(bytes(t))}
 
+    def boundary(self, rng, tier):
+        """messages whose checksum takes boundary values of the OUTPUT space (each half at 0, 1, 2^31, 2^32-1 and
+        within 2^10 of the ends; the 16-bit value likewise): computed by inverting the reference CRC on a suffix"""
+        prefixes = [b"", b"\x00", b"\xff" * 3, b"ioflo"] + [bytes(rng.randrange(256) for _ in range(rng.randrange(1, 40)))
+                                                          for _ in range(2 if tier == "quick" else 12)]
+        for pre in prefixes:
+            for hi in EDGE32:
+                for lo in EDGE32:
+                    yield {"data": hx(pre + SUFFIX64(pre, (hi << 32) | lo)), "origin": "boundary64"}
+            for v in EDGE16:
+                yield {"data": hx(pre + SUFFIX16(pre, v)), "origin": "boundary16"}
+        for k in range(0, 33 if tier == "quick" else 129):      # constant messages of every small length
+            for byte in (0x00, 0xff, 0x55, 0xaa):
+                yield {"data": hx(bytes([byte]) * k), "origin": "constant"}
+
     def generate(self, rng, n, tier):
+        for c in self.boundary(rng, tier):
+            yield c
         for i in range(n):
             k = rng.choice([0, 1, 2, 3, 7, 8, 9, 63, 64, 255, 256, 1024, rng.randrange(1025)])
             mode = rng.randrange(4)
